@@ -2,7 +2,7 @@
 import FuelVerif.Model.Jump
 import FuelVerif.Lemmas.Alu
 namespace FuelVerif.Alu
-open FuelVerif.Gen.AluArgs
+open FuelVerif.Gen.AluArgs FuelVerif.Gen.Fetch
 
 theorem satAdd_eq_min (a b : Nat) : satAdd a b = min (a + b) (2 ^ 64 - 1) := by
   unfold satAdd; split <;> omega
@@ -112,6 +112,18 @@ theorem verify_eq (m : Mem) (a n : Nat) (hn : n ≤ memSize) :
 theorem range4_map (f : Nat → UInt8) : (List.range 4).map f = [f 0, f 1, f 2, f 3] := by
   simp [List.range, List.range.loop]
 
+/-- the rejecting condition regenerated from the Rust text is exactly "below `$is` or at/after `$ssp`"
+(this is the obligation that breaks when the bound registers of `fetch_instruction` are edited) -/
+theorem fetchRejected_iff (r : Regs) : fetchRejected r = true ↔ (r regPC < r regIS ∨ r regPC ≥ r regSSP) := by
+  simp [fetchRejected, fetchLowerBoundRegs, fetchUpperBoundRegs, fetchAddrReg, regPC, regIS, regSSP]
+  constructor
+  · rintro (h | h)
+    · exact Or.inl (of_decide_eq_true h)
+    · exact Or.inr h
+  · rintro (h | h)
+    · exact Or.inl (decide_eq_true h)
+    · exact Or.inr h
+
 /-- `fetch_instruction` in closed form -/
 theorem fetch_eq (m : Mem) (r : Regs) :
     fetchInstruction m r =
@@ -121,13 +133,19 @@ theorem fetch_eq (m : Mem) (r : Regs) :
            else .ok [m.bytes (r regPC), m.bytes (r regPC + 1), m.bytes (r regPC + 2), m.bytes (r regPC + 3)])
          else .error .UninitalizedMemoryAccess)
       else .error .MemoryOverflow := by
+  have hb : fetchBytes = 4 := rfl
+  have ha : fetchAddrReg = regPC := rfl
+  have hp : fetchRangePanic = Panic.MemoryNotExecutable := rfl
   unfold fetchInstruction Mem.readBytes
-  rw [verify_eq m _ 4 (by decide)]
+  rw [hb, ha, hp, verify_eq m _ 4 (by decide)]
   by_cases h1 : r regPC + 4 ≤ memSize
   · rw [if_pos h1, if_pos h1]
     by_cases h2 : r regPC + 4 ≤ m.stackLen ∨ m.hp ≤ r regPC
     · rw [if_pos h2, if_pos h2]
       simp only [range4_map, Nat.add_zero]
+      by_cases h3 : r regPC < r regIS ∨ r regPC ≥ r regSSP
+      · rw [if_pos ((fetchRejected_iff r).mpr h3), if_pos h3]
+      · rw [if_neg (fun h => h3 ((fetchRejected_iff r).mp h)), if_neg h3]
     · rw [if_neg h2, if_neg h2]
   · rw [if_neg h1, if_neg h1]
 
